@@ -335,16 +335,16 @@ def coreList (env : Env) (cfg : Cfg) (cache : Memo) (w : Str) : List Rank :=
   coreDict env cache w ++ coreEmoji env cfg w
 
 /-- wrap the (transliterated, quoted) punctuation around a candidate -/
-def wrapR (P : Parts) (r : Rank) : Rank := r.setText (wrapText P.pre P.trail r.text)
+def wrapRSel (P : Parts) (r : Rank) : Rank := r.setText (wrapText P.pre P.trail r.text)
 
 /-- wrapping punctuation around a candidate keeps its kind and number -/
-theorem skel_wrapR (P : Parts) (r : Rank) : skel (wrapR P r) = skel r := skel_setText _ _
+theorem skel_wrapR (P : Parts) (r : Rank) : skel (wrapRSel P r) = skel r := skel_setText _ _
 
 /-- putting a candidate's own text back changes nothing -/
 theorem setText_text (r : Rank) : r.setText r.text = r := by cases r <;> rfl
 
 /-- `wrapAll` is a plain map (with no punctuation the wrapping is the identity) -/
-theorem wrapAll_eq_map (P : Parts) (l : List Rank) : wrapAll P l = l.map (wrapR P) := by
+theorem wrapAll_eq_map_wrapRSel (P : Parts) (l : List Rank) : wrapAll P l = l.map (wrapRSel P) := by
   unfold wrapAll
   split
   · rfl
@@ -357,19 +357,19 @@ theorem wrapAll_eq_map (P : Parts) (l : List Rank) : wrapAll P l = l.map (wrapR 
       cases ht : P.trail with
       | nil => rfl
       | cons a b => simp [ht] at h
-    have : ∀ r, wrapR P r = r := by
-      intro r; simp [wrapR, wrapText, hp, ht, setText_text]
-    rw [show wrapR P = id from funext this]; simp
+    have : ∀ r, wrapRSel P r = r := by
+      intro r; simp [wrapRSel, wrapText, hp, ht, setText_text]
+    rw [show wrapRSel P = id from funext this]; simp
 
 /-- the dictionary stage is the wrapped core list of the word part -/
 theorem dictList_eq_core (env : Env) (cache : Memo) (P : Parts) :
-    dictList env cache P = (coreDict env cache P.word).map (wrapR P) := by
-  rw [← wrapAll_eq_map]; rfl
+    dictList env cache P = (coreDict env cache P.word).map (wrapRSel P) := by
+  rw [← wrapAll_eq_map_wrapRSel]; rfl
 
 /-- when no emoticon matched: everything before the raw-text stage is the wrapped core list of the word part -/
 theorem beforeEnglish_eq (env : Env) (cfg : Cfg) (cache : Memo) (term : Str) (he : env.emoticon term = none) :
     C07.beforeEnglish env cfg cache term =
-      (coreList env cfg cache (word term)).map (wrapR (preparedParts env cfg term)) := by
+      (coreList env cfg cache (word term)).map (wrapRSel (preparedParts env cfg term)) := by
   unfold C07.beforeEnglish
   rw [dictList_eq_core]
   unfold emojiStage coreList coreEmoji
@@ -379,7 +379,7 @@ theorem beforeEnglish_eq (env : Env) (cfg : Cfg) (cache : Memo) (term : Str) (he
   · cases hes : env.emojiByName (word term) with
     | none => simp [ha, he]
     | some es =>
-      simp [ha, he, wrapR, Rank.setText, Rank.text]
+      simp [ha, he, wrapRSel, Rank.setText, Rank.text]
 
 /-- whether the raw typed text is appended as a candidate of its own (the English option) -/
 def rawAdded (env : Env) (cfg : Cfg) (cache : Memo) (term : Str) : Bool :=
@@ -390,7 +390,7 @@ def rawAdded (env : Env) (cfg : Cfg) (cache : Memo) (term : Str) : Bool :=
     around each item, then possibly the raw typed text -/
 theorem unsorted_eq (env : Env) (cfg : Cfg) (cache : Memo) (term : Str) (he : env.emoticon term = none) :
     C07.unsorted env cfg cache term =
-      (coreList env cfg cache (word term)).map (wrapR (preparedParts env cfg term)) ++
+      (coreList env cfg cache (word term)).map (wrapRSel (preparedParts env cfg term)) ++
         (if rawAdded env cfg cache term then [.last term 3] else []) := by
   rw [← beforeEnglish_eq env cfg cache term he]
   unfold rawAdded
